@@ -3,13 +3,15 @@
    particular they write something exactly when the model's rule function reports a clause. *)
 From Coq Require Import String.
 From PGV Require Import Base.Bytes Base.GoStr Base.GoNum Base.Utf8 Base.MiniGo.
-From PGV Require Import Extracted.SourceConst Extracted.SourceFnsRule.
+From PGV Require Import Regex.Re Regex.Rx Extracted.SourceConst Extracted.SourceRegex Extracted.SourceFnsRule Extracted.SourceFnsFmt.
 From PGV Require Import Model.RuleText Model.Value Model.Clause Model.Rules Model.GoRule.
 Open Scope Z_scope.
 
 Section Texts.
+  Variable orc : oracles.
   Variable U : val -> str.
   Variable FE : str -> str -> ftext -> str.
+  Variable ST : str -> str.
 
   (* the clause one size rule writes: the custom message alone, or the default wording with bound and unit *)
   Definition size_clause (wording obj field echo cus : str) (bound : str) (v : val) : str :=
@@ -53,7 +55,7 @@ Section Texts.
        String.eqb Ascii.eqb Bool.eqb andb orb negb fst snd];
     cbn [str_eqb].
 
-  Theorem to_from_source vn obj field v : run_rule U FE fn_To vn obj field v = Some (to_text true vn obj field v).
+  Theorem to_from_source vn obj field v : run_rule orc U FE ST fn_To vn obj field v = Some (to_text true vn obj field v).
   Proof.
     unfold to_text. rstep.
     destruct (parse_tag_to (pk_val vn) (s2b "to")) as [[mn mx]|t]; rstep; [|reflexivity].
@@ -61,7 +63,7 @@ Section Texts.
     unfold size_clause. destruct (pk_msg vn) as [|c m]; destruct lt, gt; rstep; reflexivity.
   Qed.
 
-  Theorem oto_from_source vn obj field v : run_rule U FE fn_OTo vn obj field v = Some (to_text false vn obj field v).
+  Theorem oto_from_source vn obj field v : run_rule orc U FE ST fn_OTo vn obj field v = Some (to_text false vn obj field v).
   Proof.
     unfold to_text. rstep.
     destruct (parse_tag_to (pk_val vn) (s2b "oto")) as [[mn mx]|t]; rstep; [|reflexivity].
@@ -77,22 +79,22 @@ Section Texts.
       unfold size_clause; destruct (pk_msg _) as [|c m]; destruct b1, b2; rstep; reflexivity
     end.
 
-  Theorem ge_from_source vn obj field v : run_rule U FE fn_Ge vn obj field v = Some (one_text true true vn obj field v).
+  Theorem ge_from_source vn obj field v : run_rule orc U FE ST fn_Ge vn obj field v = Some (one_text true true vn obj field v).
   Proof. solve_one. Qed.
-  Theorem gt_from_source vn obj field v : run_rule U FE fn_Gt vn obj field v = Some (one_text true false vn obj field v).
+  Theorem gt_from_source vn obj field v : run_rule orc U FE ST fn_Gt vn obj field v = Some (one_text true false vn obj field v).
   Proof. solve_one. Qed.
-  Theorem le_from_source vn obj field v : run_rule U FE fn_Le vn obj field v = Some (one_text false true vn obj field v).
+  Theorem le_from_source vn obj field v : run_rule orc U FE ST fn_Le vn obj field v = Some (one_text false true vn obj field v).
   Proof. solve_one. Qed.
-  Theorem lt_from_source vn obj field v : run_rule U FE fn_Lt vn obj field v = Some (one_text false false vn obj field v).
+  Theorem lt_from_source vn obj field v : run_rule orc U FE ST fn_Lt vn obj field v = Some (one_text false false vn obj field v).
   Proof. solve_one. Qed.
 
   Ltac solve_eq :=
     unfold eq_text; rstep; destruct (eq_holds _ _); rstep; try reflexivity;
     unfold size_clause; destruct (pk_msg _) as [|c m]; rstep; reflexivity.
 
-  Theorem eq_rule_from_source vn obj field v : run_rule U FE fn_Eq vn obj field v = Some (eq_text true vn obj field v).
+  Theorem eq_rule_from_source vn obj field v : run_rule orc U FE ST fn_Eq vn obj field v = Some (eq_text true vn obj field v).
   Proof. solve_eq. Qed.
-  Theorem noeq_rule_from_source vn obj field v : run_rule U FE fn_NoEq vn obj field v = Some (eq_text false vn obj field v).
+  Theorem noeq_rule_from_source vn obj field v : run_rule orc U FE ST fn_NoEq vn obj field v = Some (eq_text false vn obj field v).
   Proof. solve_eq. Qed.
 
   (* ---- what the written text says about the model's rule functions (Model/Rules.v) ---- *)
@@ -155,16 +157,16 @@ End Texts.
 
 (* the eight size rule functions of the table (Model/Rules.v: rTo ... rNoEq): the source function writes nothing to the
    error buffer exactly when the model's rule function reports no clause *)
-Theorem size_rules_write_iff_clause (U : val -> str) (FE : str -> str -> ftext -> str) :
+Theorem size_rules_write_iff_clause (orc : oracles) (U : val -> str) (FE : str -> str -> ftext -> str) (ST : str -> str) :
   (forall o f t, FE o f t <> []) -> forall vn obj field v,
-  (run_rule U FE fn_To vn obj field v = Some [] <-> rTo vn obj field v = []) /\
-  (run_rule U FE fn_OTo vn obj field v = Some [] <-> rOTo vn obj field v = []) /\
-  (run_rule U FE fn_Ge vn obj field v = Some [] <-> rGe vn obj field v = []) /\
-  (run_rule U FE fn_Gt vn obj field v = Some [] <-> rGt vn obj field v = []) /\
-  (run_rule U FE fn_Le vn obj field v = Some [] <-> rLe vn obj field v = []) /\
-  (run_rule U FE fn_Lt vn obj field v = Some [] <-> rLt vn obj field v = []) /\
-  (run_rule U FE fn_Eq vn obj field v = Some [] <-> rEq vn obj field v = []) /\
-  (run_rule U FE fn_NoEq vn obj field v = Some [] <-> rNoEq vn obj field v = []).
+  (run_rule orc U FE ST fn_To vn obj field v = Some [] <-> rTo vn obj field v = []) /\
+  (run_rule orc U FE ST fn_OTo vn obj field v = Some [] <-> rOTo vn obj field v = []) /\
+  (run_rule orc U FE ST fn_Ge vn obj field v = Some [] <-> rGe vn obj field v = []) /\
+  (run_rule orc U FE ST fn_Gt vn obj field v = Some [] <-> rGt vn obj field v = []) /\
+  (run_rule orc U FE ST fn_Le vn obj field v = Some [] <-> rLe vn obj field v = []) /\
+  (run_rule orc U FE ST fn_Lt vn obj field v = Some [] <-> rLt vn obj field v = []) /\
+  (run_rule orc U FE ST fn_Eq vn obj field v = Some [] <-> rEq vn obj field v = []) /\
+  (run_rule orc U FE ST fn_NoEq vn obj field v = Some [] <-> rNoEq vn obj field v = []).
 Proof.
   intros Hne vn obj field v.
   rewrite to_from_source, oto_from_source, ge_from_source, gt_from_source, le_from_source, lt_from_source,
@@ -174,15 +176,15 @@ Proof.
   repeat split; try (apply (to_decides U FE Hne)); try (apply (one_decides U)); try (apply (eq_decides U)).
 Qed.
 
-Theorem size_rules_from_source (U : val -> str) (FE : str -> str -> ftext -> str) vn obj field v :
-  run_rule U FE fn_To vn obj field v = Some (to_text U FE true vn obj field v) /\
-  run_rule U FE fn_OTo vn obj field v = Some (to_text U FE false vn obj field v) /\
-  run_rule U FE fn_Ge vn obj field v = Some (one_text U true true vn obj field v) /\
-  run_rule U FE fn_Gt vn obj field v = Some (one_text U true false vn obj field v) /\
-  run_rule U FE fn_Le vn obj field v = Some (one_text U false true vn obj field v) /\
-  run_rule U FE fn_Lt vn obj field v = Some (one_text U false false vn obj field v) /\
-  run_rule U FE fn_Eq vn obj field v = Some (eq_text U true vn obj field v) /\
-  run_rule U FE fn_NoEq vn obj field v = Some (eq_text U false vn obj field v).
+Theorem size_rules_from_source (orc : oracles) (U : val -> str) (FE : str -> str -> ftext -> str) (ST : str -> str) vn obj field v :
+  run_rule orc U FE ST fn_To vn obj field v = Some (to_text U FE true vn obj field v) /\
+  run_rule orc U FE ST fn_OTo vn obj field v = Some (to_text U FE false vn obj field v) /\
+  run_rule orc U FE ST fn_Ge vn obj field v = Some (one_text U true true vn obj field v) /\
+  run_rule orc U FE ST fn_Gt vn obj field v = Some (one_text U true false vn obj field v) /\
+  run_rule orc U FE ST fn_Le vn obj field v = Some (one_text U false true vn obj field v) /\
+  run_rule orc U FE ST fn_Lt vn obj field v = Some (one_text U false false vn obj field v) /\
+  run_rule orc U FE ST fn_Eq vn obj field v = Some (eq_text U true vn obj field v) /\
+  run_rule orc U FE ST fn_NoEq vn obj field v = Some (eq_text U false vn obj field v).
 Proof.
   repeat split; [apply to_from_source|apply oto_from_source|apply ge_from_source|apply gt_from_source|apply le_from_source
                 |apply lt_from_source|apply eq_rule_from_source|apply noeq_rule_from_source].
